@@ -59,6 +59,10 @@ pub fn uci_talk() -> anyhow::Result<()> {
                         search_is_running.store(false, Relaxed);
                         thread.join().unwrap();
                         search_thread = None;
+                    } else if let Some(thread) = search_thread.take() {
+                        // The flag is cleared by the timer or by the search thread itself before
+                        // that thread is done with the shared data: let it finish first
+                        thread.join().unwrap();
                     }
                     let mut data = data.lock().unwrap();
                     command_ucinewgame(&mut data);
@@ -70,6 +74,11 @@ pub fn uci_talk() -> anyhow::Result<()> {
                     if search_is_running.load(Relaxed) {
                         println!("error: search is still running, enter 'stop' to stop it");
                     } else {
+                        // The flag is cleared by the timer or by the search thread itself before
+                        // that thread is done with the shared data: let it finish first
+                        if let Some(thread) = search_thread.take() {
+                            thread.join().unwrap();
+                        }
                         let mut data = data.lock().unwrap();
                         if let Err(err) = command_position(&mut data, &mut terms) {
                             println!("error: {}", err);
@@ -80,6 +89,11 @@ pub fn uci_talk() -> anyhow::Result<()> {
                     if search_is_running.load(Relaxed) {
                         println!("error: search is still running, enter 'stop' to stop it");
                     } else {
+                        // The flag is cleared by the timer or by the search thread itself before
+                        // that thread is done with the shared data: let it finish first
+                        if let Some(thread) = search_thread.take() {
+                            thread.join().unwrap();
+                        }
                         // Create new bool such that if the old sleep threaed is still runnning
                         // it won't affect this new search
                         search_is_running = Arc::new(AtomicBool::new(false));
@@ -93,6 +107,11 @@ pub fn uci_talk() -> anyhow::Result<()> {
                     if search_is_running.load(Relaxed) {
                         println!("error: search is still running, enter 'stop' to stop it");
                     } else {
+                        // The flag is cleared by the timer or by the search thread itself before
+                        // that thread is done with the shared data: let it finish first
+                        if let Some(thread) = search_thread.take() {
+                            thread.join().unwrap();
+                        }
                         let data = data.lock().unwrap();
                         if let Err(err) = command_show(&data) {
                             println!("error: {}", err);
